@@ -194,6 +194,25 @@ Module DacTree.
       injection HKo as <- _ _ _. injection HKn as <- _ _. left. reflexivity.
   Qed.
 
+  (* alice owns /e/q but may not write /e: replacing /h/f by it is refused on both sides (EACCES), and allowed the
+     other way round (from her own directory onto /e/q she may not either: /e again) *)
+  Example rename_replace_refused :
+    let o := abs_path ([n_e] ++ [n_q]) in
+    let p := abs_path ([n_h] ++ [n_f]) in
+    proj_res Linux (snd (rename dfs (view_of alice 18) o p)) = snd (go_rename dfs (svu alice 18) o p)
+    /\ snd (go_rename dfs (svu alice 18) o p) = SErr EACCES.
+  Proof.
+    split; [|vm_compute; reflexivity].
+    apply (dstep_rename_replace_result dfs (svu alice 18) [n_e] n_q [n_h] n_f (dtree_hyps alice 18)); [path_ok_tac|path_ok_tac| | | | | |].
+    - intros par kind name n HK. vm_compute in HK. injection HK as _ _ _ <-. reflexivity.
+    - eexists _, _, _, _. vm_compute. reflexivity.
+    - intros par kind name n HK. vm_compute in HK. injection HK as _ _ _ <-. split; reflexivity.
+    - intros opar okind oname oc npar nkind nname nc HKo HKn. vm_compute in HKo, HKn.
+      injection HKo as _ _ _ <-. injection HKn as _ _ _ <-. discriminate.
+    - intros par kind name n HK. vm_compute in HK. injection HK as <- _ _ <-. reflexivity.
+    - intros par kind name n HK. vm_compute in HK. injection HK as <- _ _ <-. reflexivity.
+  Qed.
+
   (* ---- Remove: the side condition is necessary.  /t is sticky, /t/b is bob's: alice (who may write /t) is refused by
      the kernel with EPERM, MemFS removes the file (listed: C03-STICKY) ------------------------------------------- *)
   Example remove_sticky_differs :
